@@ -39,6 +39,21 @@ def solve_observed(env, opts):
     return ob
 
 
+def solver_gave_up(ob, ctx):
+    """True (and counted as inconclusive) when pep.solve raised because the numerical solver failed inside the
+    dimension-reduction re-solve (status not optimal, no Gram matrix): a solver outcome, not a PEPit outcome.
+    Any other exception is re-raised for the crash bucketing of the runner."""
+    if ob.exc is None:
+        return False
+    if type(ob.exc).__name__ == "SolverError":
+        ctx.label("inconclusive:SolverError")
+        return True
+    if ob.opts.get("drh") and ob.status not in ("optimal", None) and getattr(ob.wrapper, "optimal_G", 0) is None:
+        ctx.label("inconclusive:heuristic-resolve-status-%s" % ob.status)
+        return True
+    raise ob.exc
+
+
 def leaf_points():
     from PEPit import Point
     return list(Point.list_of_leaf_points)
